@@ -448,6 +448,14 @@ func runC08(tier string, seed uint64) int {
 			w.Docs = append(w.Docs, Doc{Kind: "NetworkPolicy", NS: wn[:strings.Index(wn, "/")], Name: "np-unanswerable", Text: "apiVersion: networking.k8s.io/v1\nkind: NetworkPolicy\nmetadata:\n  name: np-unanswerable\n  namespace: " +
 				wn[:strings.Index(wn, "/")] + "\nspec:\n  podSelector: {}\n  policyTypes:\n  - Egress\n  egress:\n  - {}\n  - to:\n    - ipBlock:\n        cidr: 10.0.0.0/8\n    ports:\n    - port: dns\n      protocol: UDP\n"})
 		}
+		if i%15 == 11 && len(w.Workloads) > 0 {
+			// another world without an answer: a rule peer that says nothing (neither selector nor ipBlock) next to one
+			// that selects every address. Again every command must fail, wherever the empty peer stands.
+			wn := pick(r, w.Workloads)
+			ns := wn[:strings.Index(wn, "/")]
+			w.Docs = append(w.Docs, Doc{Kind: "NetworkPolicy", NS: ns, Name: "np-emptypeer", Text: "apiVersion: networking.k8s.io/v1\nkind: NetworkPolicy\nmetadata:\n  name: np-emptypeer\n  namespace: " +
+				ns + "\nspec:\n  podSelector: {}\n  policyTypes:\n  - Ingress\n  ingress:\n  - from:\n    - ipBlock:\n        cidr: 0.0.0.0/0\n    - {}\n    - namespaceSelector: {}\n"})
+		}
 		c := &c08Case{name: fmt.Sprintf("gen:%d", i), relayout: true, docs: w.Docs, docs2: editSet(r, w.Docs, &f), hasAdmin: w.HasAdmin}
 		if f.PodsOnly && len(w.Pods) >= 2 {
 			for q := 0; q < 4; q++ {
